@@ -347,6 +347,26 @@ def dup_check_problems(prog: Program, f: FuncInfo) -> List[Tuple[int, str]]:
     if len(heads) != 1:
         raise AnalysisError(f'{f.qualname}: id loop not recognised')
     idv = dotted(heads[0].ast.target)
+    # the loop runs over the ids it was given: nothing may be filtered out before the check except None
+    src_params = {p.arg for p in f.params[1:]}
+    it = heads[0].ast.iter
+    if dotted(it) not in src_params:
+        from ..flow import Flow
+        fl = Flow(cfg)
+        itn = [n for n in cfg.nodes if n.kind == 'iter' and n.ast is it]
+        sqs = fl.seq(itn[0] if itn else cfg.entry, it)
+        for sq in sqs:
+            base = sq.iter if sq.kind == 'iter' else sq.expr
+            filt_ok = True
+            for c_, pol_ in sq.filters:
+                k_ = classify_cond(prog, f, c_)
+                if not (k_.kind == 'is-none' and k_.negated == pol_):
+                    filt_ok = False
+            if sq.kind == 'literal' or (base is not None and dotted(base) not in src_params) or not filt_ok or sq.reordered:
+                out.append((heads[0].line, f'the duplicate check runs over `{norm(it)[:60]}`, not over every id it was given: ids dropped by the '
+                            f'filter (`filter(None, …)` drops 0 and "" as well as None) are never compared, so two elements with id 0 or "" are '
+                            f'accepted as a batch'))
+                break
     skips = [n for n in cfg.stmt_nodes() if isinstance(n.ast, ast.Continue)]
     for n in skips:
         for g in guard_edges(cfg, n):
